@@ -2412,6 +2412,18 @@ class ChannelManager:
             if isinstance(channel, LeCreditBasedChannel):
                 channel.on_connection_rejected(packet.reason)
 
+        # ... and neither does a rejected enhanced credit-based connection request
+        if pending_connection := self.pending_credit_based_connections.get(
+            _connection.handle, {}
+        ).pop(packet.identifier, None):
+            connection_result, _ = pending_connection
+            if not connection_result.done():
+                connection_result.set_exception(
+                    L2capError(
+                        packet.reason, L2CAP_Command_Reject.Reason(packet.reason).name
+                    )
+                )
+
     def on_l2cap_connection_request(
         self, connection: Connection, cid: int, request: L2CAP_Connection_Request
     ) -> None:
